@@ -28,6 +28,12 @@ class Objects:
     def call_opaque(self, ex, st, fv, args, kwargs, node):
         if fv.kind == "interp1d":
             return self.interp1d_call(ex, st, fv, args[0], node)
+        if fv.kind == "fn":
+            f = fv.get("uf")
+            x = args[0]
+            if isinstance(x, Seq):
+                return Seq(x.n, lambda i: f(to_z3(as_real(x.at(i)))), "array")
+            return f(to_z3(as_real(x)))
         if fv.kind == "self":
             rf = self.ctx.method_of(ex, "__call__", fv)
             if rf is not None:
@@ -56,7 +62,23 @@ class Objects:
         raise EngineError("next() outside the subset")
 
 
+def antiderivative_of(ctx, clo):
+    """The antiderivative that scipy.integrate.quad's assumed contract refers to, per integrand object."""
+    if isinstance(clo, Closure):
+        if not hasattr(clo, "_quadF"):
+            clo._quadF = Opaque("fn", uf=z3.Function(uid("quad_F"), R, R))
+        return clo._quadF
+    if isinstance(clo, BoundMethod) or isinstance(clo, RepoFunction):
+        key = ("quadF", getattr(clo, "name", None), id(getattr(clo, "obj", None) or getattr(clo, "receiver", None)))
+        memo = ctx.__dict__.setdefault("_quadF_memo", {})
+        if key not in memo:
+            memo[key] = Opaque("fn", uf=z3.Function(uid("quad_F"), R, R))
+        return memo[key]
+    raise EngineError("antiderivative of %r" % (clo,))
+
+
 LIBFUNCS = {
+    "scipy.integrate.quad": "sp_quad",
     "scipy.interpolate.splev": "sp_splev",
     "scipy.interpolate.splint": "sp_splint",
     "scipy.interpolate.splrep": "sp_splrep",
@@ -124,6 +146,22 @@ def _install():
         clamp = lambda v: zite(ex.cmp_lt(v, lo), lo, zite(ex.cmp_gt(v, hi), hi, v))
         return F(cid, to_z3(clamp(b))) - F(cid, to_z3(clamp(a)))
 
+    def b_sp_quad(self, ex, st, args, kwargs, node):
+        libspec.trusted("scipy.integrate.quad(f, a, b)[0] = Q(b) - Q(a) for an antiderivative Q of the function it is "
+                        "passed (exact integral: quadrature error not modelled); f must be defined on [a, b]")
+        f, a, b = args[0], as_real(args[1]), as_real(args[2])
+        # f is evaluated at points between a and b: its safety obligations at an arbitrary such point
+        if ex.checking:
+            zp = z3.Real(uid("quadpt"))
+            h = st.fork()
+            h.assume(zor(zand(ex.cmp_le(a, zp), ex.cmp_le(zp, b)), zand(ex.cmp_le(b, zp), ex.cmp_le(zp, a))))
+            self.apply(ex, h, f, [zp], {}, node)
+            for pc_at, cond, exc in h.pending:
+                ex.oblige(h, znot(cond) if not isinstance(cond, bool) else (not cond), "quad-integrand-raises[%s]" % exc, node)
+        Q = antiderivative_of(self.ctx, f).get("uf")
+        return (Q(to_z3(b)) - Q(to_z3(a)), z3.Real(uid("quaderr")))
+
+    L.b_sp_quad = b_sp_quad
     L.b_sp_splev = b_sp_splev
     L.b_sp_splint = b_sp_splint
     L.b_sp_interp1d = b_sp_interp1d
